@@ -30,7 +30,7 @@ func C16(p *core.Program, r *core.Report) {
 	for _, rv := range core.ReturnValues(isActive, 0) {
 		if b, ok := rv.V.(*ssa.BinOp); ok && b.Op == token.LSS {
 			if z, isC := core.ConstInt(b.Y); isC && z == 0 {
-				if c, ok := b.X.(*ssa.Call); ok && core.NameIs(core.CalleeName(c), "sync/atomic.LoadInt32") && isTTLAddr(core.CallArgs(c)[0]) {
+				if c, ok := b.X.(*ssa.Call); ok && core.NameIs(core.CalleeName(c), "sync/atomic.LoadInt32") && isTTLAddr(core.Arg(c, 0)) {
 					okIA = true
 				}
 			}
@@ -184,7 +184,7 @@ func C16(p *core.Program, r *core.Report) {
 	// retry result is false when budget exhausted: the return on the ttl==0&&!permanent arm is (false,false)
 	// no-retry failure stores 0
 	for _, c := range core.CallsTo(act, "sync/atomic.StoreInt32") {
-		if v, isC := core.ConstInt(core.CallArgs(c)[1]); isC && v == 0 && isTTLAddr(core.CallArgs(c)[0]) {
+		if v, isC := core.ConstInt(core.Arg(c, 1)); isC && v == 0 && isTTLAddr(core.Arg(c, 0)) {
 			conds := core.DominatingConds(c.Block())
 			ok := false
 			for _, cd := range conds {
@@ -220,7 +220,7 @@ func C16(p *core.Program, r *core.Report) {
 		r.Check(held, "stop-once/"+fname(deact)+"/close-under-mutex", "the stop handshake runs under the element's mutex", p.Pos(c.Pos()), "", "held: "+dls.HeldNames(c))
 		okStore, _ := core.MustPassAfter(c, func(i ssa.Instruction) bool {
 			cc, isC := i.(*ssa.Call)
-			return isC && core.NameIs(core.CalleeName(cc), "sync/atomic.StoreInt32") && isTTLAddr(core.CallArgs(cc)[0])
+			return isC && core.NameIs(core.CalleeName(cc), "sync/atomic.StoreInt32") && isTTLAddr(core.Arg(cc, 0))
 		}, core.IsReturn)
 		r.Check(okStore, "stop-once/"+fname(deact)+"/marks-inactive", "after the stop handshake the element is marked inactive on every path", p.Pos(c.Pos()), "", "a return is reachable without storing ttl")
 	})
@@ -346,7 +346,7 @@ func C16(p *core.Program, r *core.Report) {
 	okKey := true
 	for _, n := range []string{"sync.Map.Load", "sync.Map.Store"} {
 		for _, c := range core.CallsTo(rc, n) {
-			k, ok := core.Strip(core.CallArgs(c)[0]).(*ssa.Call)
+			k, ok := core.Strip(core.Arg(c, 0)).(*ssa.Call)
 			if !ok || !k.Common().IsInvoke() || k.Common().Method.Name() != "Address" {
 				okKey = false
 			}
@@ -383,11 +383,46 @@ func C16(p *core.Program, r *core.Report) {
 		})
 		r.Check(ok, "unregister/"+fname(uc)+"/deactivate-before-delete", "an element is stopped before it is removed from the registry", p.Pos(d.Pos()), "", "Delete reachable without deactivate")
 	}
+	// ... and once the registered element is known to wrap this very adapter, it
+	// does leave the registry, whatever state it is in (an element that is not
+	// active is still waiting for its next retry tick)
+	for _, blk := range uc.Blocks {
+		ifi, ok := blk.Instrs[len(blk.Instrs)-1].(*ssa.If)
+		if !ok {
+			continue
+		}
+		b, ok := ifi.Cond.(*ssa.BinOp)
+		if !ok || (b.Op != token.NEQ && b.Op != token.EQL) {
+			continue
+		}
+		if !((pathEndsWith(b.X, "conv") && b.Y == ssa.Value(uc.Params[1])) || (pathEndsWith(b.Y, "conv") && b.X == ssa.Value(uc.Params[1]))) {
+			continue
+		}
+		nU++
+		diffEdge := 0 // successor taken when the instances differ
+		if b.Op == token.EQL {
+			diffEdge = 1
+		}
+		isRemoval := func(i ssa.Instruction) bool {
+			for _, d := range removals {
+				if i == ssa.Instruction(d) {
+					return true
+				}
+			}
+			return false
+		}
+		ok2, ex := core.MustPassAfterSkipping(ifi, isRemoval, core.IsReturn, func(from *ssa.BasicBlock, succIdx int) bool { return from == blk && succIdx == diffEdge })
+		d := ""
+		if !ok2 && ex != nil {
+			d = "path to the return at " + p.Pos(ex.Pos()) + " keeps the entry: an unregistered adapter that was waiting for a retry is started by a later retry tick"
+		}
+		r.Check(ok2, "unregister/"+fname(uc)+"/always-removes", "once the same-instance test has passed, every path of unregisterConvergence removes the entry from the registry (also for an element that is not active and only waits for its retry)", p.Pos(ifi.Pos()), "", d)
+	}
 	for _, d := range core.CallsTo(uc, claPkg+".convergenceElem.deactivate") {
 		nU++
-		r.Check(nonNegative(p, core.CallArgs(d)[0], uc), "ttl-sign/"+fname(uc)+"/deactivate-arg", "deactivate is given a non-negative budget", p.Pos(d.Pos()), "", "argument may be negative")
+		r.Check(nonNegative(p, core.Arg(d, 0), uc), "ttl-sign/"+fname(uc)+"/deactivate-arg", "deactivate is given a non-negative budget", p.Pos(d.Pos()), "", "argument may be negative")
 	}
-	r.Min("unregisterConvergence obligations", 2)
+	r.Min("unregisterConvergence obligations", 3)
 	r.Count("unregisterConvergence obligations", nU)
 
 	// Sender/Receiver: only active elements are listed
@@ -415,7 +450,7 @@ func C16(p *core.Program, r *core.Report) {
 
 func isTTLLoad(v ssa.Value) bool {
 	c, ok := v.(*ssa.Call)
-	return ok && core.NameIs(core.CalleeName(c), "sync/atomic.LoadInt32") && isTTLAddr(core.CallArgs(c)[0])
+	return ok && core.NameIs(core.CalleeName(c), "sync/atomic.LoadInt32") && isTTLAddr(core.Arg(c, 0))
 }
 
 // ttlPositive: the condition establishes ttl > 0.
